@@ -30,6 +30,8 @@ fn sc_lands_and_skips() -> Option<String> {
     let d = base("lands"); let (l, h) = (d.join("local"), d.join("hub"));
     let big: Vec<u8> = (0..300_000usize).map(|i| (i % 241) as u8).collect();
     put(&l, "a.txt", b"alpha"); put(&l, "d/b.bin", &big); put(&l, "empty", b""); put(&l, "same", b"already there");
+    // names that merely LOOK like the hub's control directory are ordinary files
+    put(&l, ".copiaignore", b"*.o"); put(&l, ".copia-hooks/pre-push", b"#!/bin/sh"); put(&l, "x.copia", b"suffix");
     put(&h, "other", b"keep me"); put(&h, "a.txt", b"an older alpha"); put(&h, "same", b"already there");
     let (rc, out) = hub_sync(&l, &h);
     let res = (|| {
@@ -52,6 +54,8 @@ fn sc_stale_listing() -> Option<String> {
     // meanwhile. A's listing is now stale: its Put must land a conflict copy, never overwrite B, and A must exit non-zero.
     let d = base("stale"); let (la, lb, h) = (d.join("localA"), d.join("localB"), d.join("hub"));
     put(&la, "doc", b"A's version of doc"); put(&lb, "doc", b"B's version, committed first"); put(&h, "doc", b"the version both listed");
+    // a second contended path, later in A's order: a client that refreshes its listing after the first loss would overwrite it
+    put(&la, "zz-second", b"A's second file"); put(&lb, "zz-second", b"B's second file"); put(&h, "zz-second", b"listed second");
     let b = std::env::var("COPIA_BIN").unwrap_or_default();
     let a = Command::new("strace").args(["-f", "-qq", "-o", "/dev/null", "-P"]).arg(la.join("doc")).args(["-e", "trace=openat,open", "-e", "inject=openat,open:delay_enter=1500000:when=1"])
         .arg(&b).arg("hub-sync").arg(&la).arg(&h).env("RUST_BACKTRACE", "0").stdin(Stdio::null()).stdout(Stdio::piped()).stderr(Stdio::piped()).spawn().ok()?;
@@ -64,6 +68,10 @@ fn sc_stale_listing() -> Option<String> {
         if th.get("doc").map(|v| v.as_slice()) != Some(b"B's version, committed first".as_slice()) {
             return Some(format!("client A listed the hub, client B then committed `doc`, A then pushed: the hub's `doc` now holds {:?} - what B committed was overwritten by a client with a stale listing (C13)", th.get("doc").map(|v| String::from_utf8_lossy(v).into_owned())));
         }
+        if th.get("zz-second").map(|v| v.as_slice()) != Some(b"B's second file".as_slice()) {
+            return Some(format!("client A lost its compare-and-swap on `doc` and then pushed `zz-second`: the hub's `zz-second` holds {:?} - B's committed content was overwritten by the client whose listing was stale (C13)", th.get("zz-second").map(|v| String::from_utf8_lossy(v).into_owned())));
+        }
+        if !th.iter().any(|(p, v)| p.starts_with("zz-second.conflict-") && v == b"A's second file") { return Some("client A's second file is not retrievable from the hub (no conflict copy) (C13)".into()); }
         if !th.iter().any(|(p, v)| p.starts_with("doc.conflict-") && v == b"A's version of doc") { return Some("client A's file is not retrievable from the hub after its compare-and-swap lost (no conflict copy) (C13)".into()); }
         if oa.status.code() == Some(0) { return Some("hub-sync exited 0 although the hub changed underneath it and its file was not committed (C13)".into()); }
         None
